@@ -7,6 +7,57 @@ HERE = os.path.dirname(os.path.abspath(__file__))
 ALL = ["C%02d" % i for i in range(1, 18)]
 
 CHECKS = {
+    "C04": dict(
+        category="model_checking",
+        text="TLC runs two main x interrupt-routine programs on Micro.tla (control store from the tree) with the key pressed before EVERY clock cycle "
+             "(and every pair within a window): the routine is entered only from an int: word after a sampling point, every effective press is consumed "
+             "exactly once, presses made while enabled are entered unless the program itself disables interrupts first, the routine's counter equals the "
+             "entries, and the final registers/flags/SP/outputs/live memory equal the uninterrupted run. Every schedule is replayed on the real machine and "
+             "the full final state (private fields included) compared; a sample is validated edge by edge.",
+        design_ref="DESIGN.md section 3 C04",
+        note="Trusted: TLC; sampling semantics (a press during DI or the entry sequence is dropped/deferred); masking of dead stack slots and the counter cell; two programs.",
+        technique="TLC BFS over all trigger cycles with history variables + replay of every TLC schedule on the real machine + trace validation",
+    ),
+    "C05": dict(
+        category="model_checking",
+        text="TLC: LDSP v for all 256 v x 5 stack sizes x 6 follow-ups and JMP t for all 256 targets x 11 limits on Micro.tla; at every state SupInv, "
+             "StepProps (regular stop iff STOP fetched; error stop iff a commit breaks a rule or 0x00 fetched, at that very edge), Absorbing and closure of "
+             "halted states under further stimuli. Every halting run is replayed on the real machine (Running one edge earlier, full state at the halting "
+             "edge); per-edge traces with post-halt stimuli and continue are validated with SupInv.",
+        design_ref="DESIGN.md section 3 C05",
+        note="Trusted: TLC; the corner the property leaves open (STOP fetched by the edge that also commits an illegal PC/SP) is exempt via the history variable taint.",
+        technique="TLC BFS with state and step invariants + replay of halting runs + TLA+ trace validation per clock edge",
+    ),
+    "C07": dict(
+        category="model_checking",
+        text="TLC: all histories up to depth 4 (thorough 5) over 20 actions; after every prefix the field-by-field statements for cpu reset / master "
+             "reset / load and a lock-step run against a fresh machine. Real machine: random histories where, after the prefixes, each reset/load is applied "
+             "to a clone and ALL fields (private ones via hooks, full RAM) are compared with the specification; a follow-up program is run in lock step with "
+             "a newly created machine.",
+        design_ref="DESIGN.md section 3 C07",
+        note="Trusted: TLC; hooks; NOSET limits inherited; fresh-machine comparison modulo board inputs, MISR, UART bytes and step mode.",
+        technique="TLC BFS over bounded histories with per-prefix reset properties + trace validation of real histories with reset probes on clones",
+    ),
+    "C11": dict(
+        category="model_checking",
+        text="TLC walks the code-shaped two-phase loop of trigger_key_clock next to the declarative definition from every state of the edge-by-edge runs "
+             "of the program suite (key interrupt at any point) and from a boundary with every byte at PC. On the real machine every offset j of the suite "
+             "programs (and random images) is clocked j single edges and then stepped in assembly mode; each step's edge count is measured against a "
+             "single-stepped clone, a watchdog records non-return, and TraceMachine accepts a step only if it ends exactly at the declarative boundary.",
+        design_ref="DESIGN.md section 3 C11",
+        note="Trusted: TLC; an edge that changes nothing is unobservable (stuck sequencer on an undefined opcode).",
+        technique="TLC BFS of the step loop vs declarative definition + TLA+ trace validation of assembly steps from every run offset",
+    ),
+    "C13": dict(
+        category="model_checking",
+        text="Specification: every action of Machine.tla is total and preserves TypeOK under hostile values (TLC -simulate). Code: a bulk random driver "
+             "(16 processes; quick 3x10^7, thorough 10^9 calls) executes loads of uniform/opcode-biased images with all stack sizes and limits, edges, key "
+             "interrupts, continue, resets, setters with raw f32 bit patterns and direct bus calls under catch_unwind with overflow checks on, reading all "
+             "getters and stepping once more after every call; a sample of interleavings is validated event by event.",
+        design_ref="DESIGN.md section 3 C13",
+        note="TLC cannot make Rust panic: the exploration engine for panics is the random driver; the spec supplies the enabledness oracle and validates the sample.",
+        technique="TLC simulation of TypeOK/enabledness + randomized driver under catch_unwind + trace validation of a sample",
+    ),
     "C01": dict(
         category="model_checking",
         text="Refinement Micro(control store of the working tree) => Isa.tla checked by TLC at instruction boundaries: equality of the whole abstract "
